@@ -139,6 +139,74 @@ def length_table_rule(ck, prog, report, tu="src/str/strerror_s.c", min_rows=8):
     return out
 
 
+ZERO_FILLERS = ("mem_prim_set", "mem_prim_set16", "mem_prim_set32", "memset", "wmemset", "explicit_bzero", "bzero")
+
+
+def overwrite_rule(prog, report, funcs=None):
+    """clause 'complete and unaltered': a zero fill (slack clearing) never starts at an element the function has just stored result data
+    into.  For every zero-fill call whose start pointer is the very SSA pointer of an earlier store in a dominating position: the fill
+    is fine when the branch leading to it established that the stored element is 0 (`*dest = *src; if (*dest == 0) clear from dest` --
+    the terminator is part of the cleared range); any other guard (a comparison with the stop character of memccpy_s) means the element
+    holds result data and is wiped.  Returns the number of (store, fill at the same pointer) pairs judged."""
+    n = 0
+    for fn in (funcs if funcs is not None else prog.allfuncs):
+        stores = {}
+        for i in fn.insts():
+            if i["op"] == "store" and i["ops"][1].get("k") == "v":
+                stores.setdefault(i["ops"][1]["id"], []).append(i)
+        if not stores:
+            continue
+        for c in fn.calls():
+            name = c.get("callee") or ""
+            base = "memset" if name.startswith("llvm.memset") else name
+            if base not in ZERO_FILLERS or not c.get("args"):
+                continue
+            if base not in ("explicit_bzero", "bzero"):
+                va = c["args"][2] if base.startswith("mem_prim_set") else c["args"][1]
+                if not (va.get("k") == "c" and va.get("v") == 0):
+                    continue
+            p0 = c["args"][0]
+            while p0.get("k") == "v" and fn.defs.get(p0["id"], {}).get("op") == "bitcast":
+                p0 = fn.defs[p0["id"]]["ops"][0]
+            for st in stores.get(p0.get("id"), ()):
+                if not ((st["_bb"] == c["_bb"] and st["_k"] < c["_k"]) or (st["_bb"] != c["_bb"] and fn.dominates(st["_bb"], c["_bb"]))):
+                    continue
+                sv = st["ops"][0]
+                if sv.get("k") == "c" and sv.get("v") == 0:
+                    continue                      # a zero was stored: nothing to lose
+                n += 1
+                # is the fill reached only over an edge that says "the element (or the value stored) is 0"?
+                zero_known = False
+                for tb in fn.blocks:
+                    t = fn.term(tb)
+                    if t["op"] != "br" or "cond" not in t or t["cond"].get("k") != "v":
+                        continue
+                    d = fn.defs.get(t["cond"]["id"])
+                    if d is None or d["op"] != "icmp" or d["pred"] not in ("eq", "ne"):
+                        continue
+                    a, b = d["ops"]
+                    if not (b.get("k") == "c" and b.get("v") == 0):
+                        a, b = b, a
+                    if not (b.get("k") == "c" and b.get("v") == 0) or a.get("k") != "v":
+                        continue
+                    x = a
+                    while fn.defs.get(x.get("id"), {}).get("op") in ("zext", "sext", "trunc"):
+                        x = fn.defs[x["id"]]["ops"][0]
+                    dx = fn.defs.get(x.get("id"))
+                    same = x.get("id") == sv.get("id") or (dx is not None and dx["op"] == "load" and dx["ops"][0].get("id") == p0.get("id"))
+                    if not same:
+                        continue
+                    zside = t["t"] if d["pred"] == "eq" else t["f"]
+                    if (zside == c["_bb"] or fn.dominates(zside, c["_bb"])) and (tb == st["_bb"] or fn.dominates(st["_bb"], tb)):
+                        zero_known = True
+                if not zero_known:
+                    bn = api.base_name(fn.name)
+                    report("C06:clearing-overwrites-result:%s:%s" % (bn, base), "C-result-complete-and-unaltered", fn.loc(c),
+                           "%s: %s clears from the very element stored at line %s, on a path that has not established that element to be 0: the last element of the result is wiped"
+                           % (bn, name, st.get("line")))
+    return n
+
+
 def run(ck):
     mods, info = frontend.load_modules()
     prog = Program(mods)
@@ -168,9 +236,12 @@ def run(ck):
     prim = prim_common.primitive_rule(ck, prog, "C06", ck.report)
     ltab = length_table_rule(ck, prog, ck.report)
     sib = siblings.rule(prog, ck.report, "C06", broken=ck.fail_broken)
+    nov = overwrite_rule(prog, ck.report)
+    if nov < 10:
+        ck.fail_broken("overwrite rule: only %d (store, zero fill at the same pointer) pairs found (< 10)" % nov)
     fx = selftest(ck)
     fx["primitives"] = prim_common.selftest(ck)
-    cov = dict(returned_pointers=pr, primitives=prim, length_tables=ltab, symmetric_copy_loop_pairs=sib, explanation="All paths of the %d non-truncating copy/concatenate functions: %d success-return path classes, none of which follows an edge on which the counter initialised "
+    cov = dict(returned_pointers=pr, primitives=prim, length_tables=ltab, symmetric_copy_loop_pairs=sib, store_then_fill_pairs=nov, explanation="All paths of the %d non-truncating copy/concatenate functions: %d success-return path classes, none of which follows an edge on which the counter initialised "
                "from dmax is zero; the budget-exhausted exits (present in every function: the rule is not vacuous) all reach error returns. Returned pointers: on every success path of stpcpy_s/stpncpy_s "
                "the returned pointer equals the position of the terminating null tracked by the destination typestate. Primitives: in each of the 7 mem_prim_* routines, on every path to the return the stores "
                "through dest tile dest[0 .. len*size) exactly once (alignment prologue, unrolled word/element body, tail), each copied element comes from the same offset of src, no count subtraction can wrap; "
@@ -211,4 +282,9 @@ def selftest(ck):
         out["siblings_" + prop] = dict(pairs=np_, reports=got)
         if got != want or np_ != 3:
             ck.fail_broken("fixture c06.c: sibling-loop rule (%s) gave %s over %d pairs, expected %s over 3" % (prop, got, np_, want))
+    got = []
+    nv = overwrite_rule(prog, lambda key, *a, **k: got.append(key), funcs=[prog.funcs[n] for n in ("fx6_ccpy_good", "fx6_ccpy_wipes", "fx6_str_term_good")])
+    out["overwrite_rule"] = dict(pairs=nv, reports=got)
+    if got != ["C06:clearing-overwrites-result:fx6_ccpy_wipes:memset"] or nv < 2:
+        ck.fail_broken("fixture c06.c: overwrite rule reported %s over %d pairs" % (got, nv))
     return out
